@@ -111,7 +111,107 @@ def _post_mirror(out):
                       % (float(vals.min()), float(vals.max())), contract='mirror.range')
 
 
-def _install_contracts(xsf):
+# --------------------------------------------------------------------------
+# input immutability: a query must not change the arrays / lists / dicts it is given
+# (a changed argument is an observable effect: later results of the caller's loop then
+# depend on which calls came before)
+# --------------------------------------------------------------------------
+MAX_MUTATION_REPORTS = 3      # per guarded function and worker; the rest is counted
+GUARDED = ('Xray.f0', 'Xray.scattering_factors', 'Xray.sld', 'xray_sld', 'index_of_refraction',
+           'mirror_reflectivity')
+
+
+def _leaf(x):
+    import numpy as np
+    if isinstance(x, (bool, int, float, complex, str, bytes, type(None), np.generic)):
+        return repr(x)
+    return id(x)
+
+
+def _snap_item(x, depth):
+    s = _snap(x, depth) if depth < 4 else None
+    return _leaf(x) if s is None else s
+
+
+def _snap(v, depth=0):
+    """An exact picture of a mutable argument; None for what cannot be changed in place
+    (numbers, strings, tuples of such, atoms)."""
+    import numpy as np
+    if isinstance(v, np.ndarray):
+        return ('ndarray', v.dtype.str, v.shape, v.tobytes())
+    if isinstance(v, list):
+        return ('list', tuple(_snap_item(x, depth + 1) for x in v))
+    if isinstance(v, tuple):
+        inner = [_snap(x, depth + 1) if depth < 4 else None for x in v]
+        if all(i is None for i in inner):
+            return None
+        return ('tuple', tuple(_leaf(x) if i is None else i for i, x in zip(inner, v)))
+    if isinstance(v, dict):
+        return ('dict', tuple((id(k), _snap_item(x, depth + 1)) for k, x in v.items()))
+    return None
+
+
+def _describe_change(value, before):
+    import numpy as np
+    if isinstance(value, np.ndarray) and before[0] == 'ndarray':
+        old = np.frombuffer(before[3], dtype=np.dtype(before[1])).reshape(before[2])
+        if value.shape != old.shape or value.dtype != old.dtype:
+            return '%s %r became %s %r' % (old.dtype, old.shape, value.dtype, value.shape)
+        if value.dtype.kind in 'fc':
+            diff = ~((value == old) | ((value != value) & (old != old)))
+        else:
+            diff = value != old
+        idx = np.argwhere(diff)
+        if len(idx):
+            i = tuple(int(t) for t in idx[0])
+            return '%s ndarray of shape %r: element %r was %r before the call and is %r after (%d of %d changed)' % (
+                old.dtype, old.shape, i if len(i) != 1 else i[0], old[i].item(), value[i].item(), len(idx), old.size)
+        return '%s ndarray of shape %r: bit pattern changed' % (old.dtype, old.shape)
+    return '%s: %.200r after the call' % (type(value).__name__, value)
+
+
+def _guard(label, orig):
+    """Rebind-wrapper: every ndarray / list / dict argument is the same after the call as before."""
+    import functools
+
+    @functools.wraps(orig)
+    def guarded(*args, **kw):
+        tracked = []
+        for name, a in list(enumerate(args)) + list(kw.items()):
+            if a is None or isinstance(a, (float, int, str)):
+                continue
+            snap = _snap(a)
+            if snap is not None:
+                tracked.append((name, a, snap))
+        if not tracked:
+            return orig(*args, **kw)
+        try:
+            return orig(*args, **kw)
+        finally:
+            _inputs_unchanged(label, tracked)
+    return guarded
+
+
+def _inputs_unchanged(label, tracked):
+    ctx = _state['ctx']
+    for name, a, before in tracked:
+        ctx.count('contract.input_unchanged')
+        ctx.count('contract.input_unchanged.' + label)
+        if _snap(a) == before:
+            continue
+        ctx.count('contract.input_unchanged.changed.' + label)
+        seen = _state.setdefault('mutation_reports', {})
+        seen[label] = seen.get(label, 0) + 1
+        if seen[label] > MAX_MUTATION_REPORTS:
+            ctx.count('contract.input_unchanged.reports_suppressed')
+            continue
+        ctx.violation('%s changed its argument %s in place (%s); a query must leave its inputs alone, the next '
+                      'call with the same object is evaluated at other values'
+                      % (label, name if isinstance(name, str) else 'number %d' % name, _describe_change(a, before)),
+                      contract='input-unchanged', function=label, argument=str(name))
+
+
+def _install_contracts(xsf, cromermann):
     import functools
     orig_sf = xsf.Xray.scattering_factors
     orig_mr = xsf.mirror_reflectivity
@@ -128,8 +228,19 @@ def _install_contracts(xsf):
         _post_mirror(out)
         return out
 
-    xsf.Xray.scattering_factors = scattering_factors
-    xsf.mirror_reflectivity = mirror_reflectivity
+    # module / class attributes are rebound, so calls made inside the library (xray_sld ->
+    # scattering_factors, index_of_refraction -> xray_sld, Xray.f0 -> cromermann.fxrayatq,
+    # periodictable.xray_sld -> xsf.xray_sld) pass through the guards too
+    xsf.Xray.scattering_factors = _guard('Xray.scattering_factors', scattering_factors)
+    xsf.mirror_reflectivity = _guard('mirror_reflectivity', mirror_reflectivity)
+    xsf.Xray.sld = _guard('Xray.sld', xsf.Xray.sld)
+    xsf.Xray.f0 = _guard('Xray.f0', xsf.Xray.f0)
+    xsf.xray_sld = _guard('xray_sld', xsf.xray_sld)
+    xsf.index_of_refraction = _guard('index_of_refraction', xsf.index_of_refraction)
+    xsf.xray_energy = _guard('xray_energy', xsf.xray_energy)
+    xsf.xray_wavelength = _guard('xray_wavelength', xsf.xray_wavelength)
+    cromermann.fxrayatq = _guard('cromermann.fxrayatq', cromermann.fxrayatq)
+    cromermann.fxrayatstol = _guard('cromermann.fxrayatstol', cromermann.fxrayatstol)
     return orig_sf, orig_mr
 
 
@@ -148,18 +259,18 @@ def setup(ctx):
     cm = CromerMannTable()
     pt.Fe.xray  # force the delayed loader so that Element.xray / Ion.xray are the real properties
     _state.update(ctx=ctx, xr=xr, cm=cm, pt=pt, xsf=xsf, cromermann=cromermann)
-    orig_sf, orig_mr = _install_contracts(xsf)
+    orig_sf, orig_mr = _install_contracts(xsf, cromermann)
     reach = Reach()
     reach.watch(_inner(orig_sf), 'Xray.scattering_factors')
     reach.watch(xsf.Xray._gettable, 'Xray._gettable')
     reach.watch(_inner(xsf.Xray.sld), 'Xray.sld')
-    reach.watch(xsf.Xray.f0, 'Xray.f0')
+    reach.watch(_inner(xsf.Xray.f0), 'Xray.f0')
     reach.watch(_inner(xsf.xray_sld), 'xray_sld')
     reach.watch(_inner(xsf.index_of_refraction), 'index_of_refraction')
     reach.watch(_inner(orig_mr), 'mirror_reflectivity')
-    reach.watch(xsf.xray_energy, 'xray_energy')
-    reach.watch(xsf.xray_wavelength, 'xray_wavelength')
-    reach.watch(cromermann.fxrayatstol, 'fxrayatstol')
+    reach.watch(_inner(xsf.xray_energy), 'xray_energy')
+    reach.watch(_inner(xsf.xray_wavelength), 'xray_wavelength')
+    reach.watch(_inner(cromermann.fxrayatstol), 'fxrayatstol')
     reach.watch(cromermann.CromerMannFormula.atstol, 'CromerMannFormula.atstol')
     reach.watch(cromermann._update_cmformulas, '_update_cmformulas')
     for text, label in (('numpy.interp(energy, xsf[0], xsf[1]', 'interp_f1_line'),
@@ -191,10 +302,18 @@ def finish(ctx):
         ctx.require('reach.' + label, 1, why)
     ctx.require('contract.scattering_factors', 1, 'the postcondition on Xray.scattering_factors must have been evaluated')
     ctx.require('contract.mirror_reflectivity', 1, 'the postcondition on mirror_reflectivity must have been evaluated')
+    for label in GUARDED:
+        ctx.require('contract.input_unchanged.' + label, 1,
+                    'the input-unchanged guard on %s must have compared an array/list/dict argument' % label)
     ctx.require('eval.f2', 92 * 100, 'interpolation comparisons over all tables')
     ctx.require('eval.sld', 100, 'compound SLD comparisons')
     ctx.require('eval.f0.electron_count', 211, 'every Cromer-Mann entry must be evaluated at Q -> 0')
     ctx.require('tables.swept', 92, 'every tabulated element must be swept')
+    ctx.require('compound.repeated_element.charge_states', 20,
+                'compounds holding one element in two or more charge states (mixed valence, neutral + ion)')
+    ctx.require('compound.repeated_element.isotopes', 20, 'compounds holding two isotopes of one element')
+    ctx.require('eval.repeat_same_object', 1000, 'calls repeated with the same array object')
+    ctx.require('reuse.f0_q_grid_calls', 300, 'one Q array handed to many f0 calls')
 
 
 # --------------------------------------------------------------------------
@@ -269,7 +388,34 @@ def _count_text(n):
     return '%.3f' % n
 
 
-def gen_atoms(rng, dt=False, nmax=5):
+REPEAT_SHARE = 0.15    # compounds / mirrors that hold one element in several charge states and/or isotopes
+COUNTS = [1, 1, 2, 3, 4, 0.5]
+
+
+def _count(rng):
+    return rng.choice(COUNTS + [float('%.3f' % 10 ** rng.uniform(-2, 2))])
+
+
+def _repeat_element(rng, atoms, dt):
+    """Add one or two further forms of an element the compound already has: another charge state
+    (neutral + ion, two ions: mixed-valence Fe{2+}Fe{3+}2O{2-}4), another isotope (H + D), an ion of
+    another isotope, or - rarely - the very same atom again (two places of a formula string)."""
+    pt = _state['pt']
+    Z, A, q, _n = rng.choice(atoms)
+    el = pt.elements[Z]
+    for _ in range(rng.choice([1, 1, 1, 2])):
+        kind = rng.choice(['charge', 'charge', 'charge', 'isotope', 'both', 'both', 'same'])
+        A2, q2 = A, q
+        if kind in ('charge', 'both') and el.ions:
+            q2 = rng.choice([c for c in [0] + list(el.ions) if c != q])
+        if kind in ('isotope', 'both') and el.isotopes:
+            A2 = rng.choice([a for a in [0] + list(el.isotopes) if a != A] or [A])
+        if Z == 1 and A2 in (2, 3) and not dt:     # ions of D and T only in the dt share of the cases
+            q2 = 0
+        atoms.insert(rng.randint(0, len(atoms)), [Z, A2, q2, _count(rng)])
+
+
+def gen_atoms(rng, dt=False, nmax=5, repeat=None):
     pt, xr = _state['pt'], _state['xr']
     zs = rng.sample(sorted(xr.symbols), rng.randint(1, nmax))
     if dt and 1 not in zs:
@@ -287,8 +433,11 @@ def gen_atoms(rng, dt=False, nmax=5):
                 A, q = rng.choice((2, 3)), rng.choice(el.ions)
             elif A in (2, 3):
                 q = 0
-        n = rng.choice([1, 1, 2, 3, 4, 0.5, float('%.3f' % 10 ** rng.uniform(-2, 2))])
-        atoms.append([Z, A, q, n])
+        atoms.append([Z, A, q, _count(rng)])
+    if repeat is None:
+        repeat = rng.random() < REPEAT_SHARE
+    if repeat:
+        _repeat_element(rng, atoms, dt)
     return atoms
 
 
@@ -365,6 +514,25 @@ def _isnan(x):
         return False
 
 
+def _same_bits(a, b):
+    """Two results of the same call are equal element by element (NaN equals NaN)."""
+    import numpy as np
+    a, b = np.asarray(a), np.asarray(b)
+    return a.shape == b.shape and bool(np.array_equal(a, b, equal_nan=True))
+
+
+def _repeat_call(ctx, bud, text, first, again, **detail):
+    """The same call with the same argument object, later in the case: same answer."""
+    ctx.evaluated(1, 'repeat_same_object')
+    firsts = first if isinstance(first, tuple) else (first,)
+    agains = again if isinstance(again, tuple) else (again,)
+    if len(firsts) != len(agains) or not all(_same_bits(a, b) for a, b in zip(firsts, agains)):
+        bud.violation('%s: the same call with the same argument object gave %.300r the first time and %.300r '
+                      'later in the case' % (text, first, again), kind='repeat', **detail)
+        return False
+    return True
+
+
 def _atom(key):
     from .. import atoms
     return atoms.lookup(_state['pt'].elements, tuple(key))
@@ -408,12 +576,19 @@ def _point(ctx, bud, Z, e, g1, g2, how, ulps=8, atom=None):
         ctx.count('f1.unconstrained_next_to_missing')
 
 
-def _sweep(ctx, bud, Z, atom, energies, how, scalar=True, wavelength=False):
-    """Vector call, (optionally) one scalar call per energy, (optionally) the wavelength= route."""
+def _sweep(ctx, bud, Z, atom, energies, how, scalar=True, wavelength=False, buf=None):
+    """Vector call, (optionally) one scalar call per energy, (optionally) the wavelength= route; the vector
+    calls are made again at the end with the very same array objects.  buf: an ndarray of the right length
+    that the caller hands to several sweeps (a user's preallocated energy buffer, refilled per atom)."""
     import numpy as np
     xr = _state['xr']
     name = str(atom)
-    arr = np.array(energies, dtype=float)
+    if buf is not None and buf.shape == (len(energies),):
+        buf[:] = energies
+        arr = buf
+        ctx.count('reuse.energy_buffer_across_atoms')
+    else:
+        arr = np.array(energies, dtype=float)
     out = atom.xray.scattering_factors(energy=arr)
     if out[0] is None:
         return 'none'
@@ -451,13 +626,18 @@ def _sweep(ctx, bud, Z, atom, energies, how, scalar=True, wavelength=False):
               abs(e - tab.emin) > 1e-9 * tab.emin and abs(e - tab.emax) > 1e-9 * tab.emax]
         if es:
             wl = [xr.wavelength(e) for e in es]
-            w1, w2 = atom.xray.scattering_factors(wavelength=np.array(wl))
+            wlarr = np.array(wl)
+            w1, w2 = atom.xray.scattering_factors(wavelength=wlarr)
             for e, a, b in zip(es, np.asarray(w1).tolist(), np.asarray(w2).tolist()):
                 _point(ctx, bud, Z, e, a, b, how + ' (wavelength= %r A)' % xr.wavelength(e), ulps=64, atom=name)
                 if bud.spent:
                     return 'spent'
             s1, s2 = atom.xray.scattering_factors(wavelength=wl[0])
             _point(ctx, bud, Z, es[0], float(s1), float(s2), how + ' (scalar wavelength=)', ulps=64, atom=name)
+            _repeat_call(ctx, bud, '%s.xray.scattering_factors(wavelength=<array of %d>) %s' % (name, len(wl), how),
+                         (w1, w2), atom.xray.scattering_factors(wavelength=wlarr), Z=Z)
+    _repeat_call(ctx, bud, '%s.xray.scattering_factors(energy=<array of %d>) %s' % (name, len(energies), how),
+                 (v1, v2), atom.xray.scattering_factors(energy=arr), Z=Z)
     return 'ok'
 
 
@@ -537,6 +717,7 @@ def check_ions(ctx, case):
     tab = xr.table(Z)
     rng = random.Random(case['seed'])
     bud = _Budget(ctx)
+    buf = None
     for key in case['atoms']:
         key = tuple(key)
         n = case['sample']
@@ -547,8 +728,11 @@ def check_ions(ctx, case):
         for j in rng.sample(edges, min(3, len(edges))):    # absorption-edge neighbours
             es += [tab.E[j], (tab.E[j] + tab.E[j + 1]) / 2, tab.E[j + 1], math.nextafter(tab.E[j + 1], 99)]
         atom = _atom(key)
+        if buf is None:
+            import numpy as np
+            buf = np.empty(len(es))
         status = _sweep(ctx, bud, Z, atom, es, 'ion/isotope', scalar=(key[2] != 0 and rng.random() < 0.3),
-                        wavelength=rng.random() < 0.3)
+                        wavelength=rng.random() < 0.3, buf=buf)
         ctx.evaluated(1, 'ion_has_table')
         ctx.distinct_case(('ion', key))
         if status == 'none':
@@ -578,8 +762,12 @@ def check_element_sld(ctx, case):
          [rng.choice(tab.E) for _ in range(3)] + [tab.emin * 0.5, tab.emax * 1.5, tab.emin, tab.emax]
     targets = [el] + [el[A] for A in rng.sample(list(el.isotopes), min(2, len(el.isotopes)))]
     bud = _Budget(ctx)
+    earr = np.array(es)      # one energy grid for the element and its isotopes, as a survey would use
+    first = None
     for atom in targets:
-        vec = atom.xray.sld(energy=np.array(es))
+        vec = atom.xray.sld(energy=earr)
+        if first is None:
+            first = vec
         for i, e in enumerate(es):
             got = atom.xray.sld(energy=e) if i % 2 == 0 else atom.xray.sld(wavelength=xr.wavelength(e))
             if rho_el is None:
@@ -597,6 +785,8 @@ def check_element_sld(ctx, case):
                          '%s.xray.sld(vector)[%d] at %r keV' % (atom, i, e), what='element_sld')
             if bud.spent:
                 return
+    if first[0] is not None:
+        _repeat_call(ctx, bud, '%s.xray.sld(energy=<array of %d>)' % (el, len(es)), first, el.xray.sld(energy=earr), Z=Z)
     ctx.distinct_case(('element_sld', Z))
 
 
@@ -714,6 +904,17 @@ def check_compound(ctx, case):
     bud = _Budget(ctx)
     name = case.get('text') or '+'.join('%s*%g' % (_render(k, True), n) for k, n in comp.items())
     ref = xr.sld(comp, rho, E)
+    forms = {}
+    for k in comp:
+        forms.setdefault(k[0], []).append(k)
+    if any(len(v) > 1 for v in forms.values()):
+        ctx.count('compound.repeated_element')
+        if any(len({k[2] for k in v}) > 1 for v in forms.values()):
+            ctx.count('compound.repeated_element.charge_states')
+        if any(len({k[1] for k in v}) > 1 for v in forms.values()):
+            ctx.count('compound.repeated_element.isotopes')
+    if len(case['atoms']) > len(comp):
+        ctx.count('compound.same_atom_twice')
 
     got0, exc = _try(xsf.xray_sld, obj, density=rho, energy=E)
     if exc is not None:
@@ -759,6 +960,7 @@ def check_compound(ctx, case):
         arg, es = np.float64(E), [E]
     else:
         arg = _vector(form, es)
+    vector_text = 'xray_sld(%s, density=%r, energy=<%s %r>)' % (name, rho, form, es)
     gv = xsf.xray_sld(obj, density=rho, energy=arg)
     ctx.count('compound.vecform.' + form)
     if form == 'npfloat':
@@ -844,7 +1046,8 @@ def check_compound(ctx, case):
                 bud.violation('index_of_refraction(%s, density=%r, %s=%r) = %r, 1 - lambda^2/(2 pi)(rho + i irho)1e-6 = %r'
                               % (name, rho, route, kw[route], nv, complex(1 - delta, -beta)), kind='refraction')
         if len(case['more']) > 0:
-            ev = np.array([E] + list(case['more']))
+            # the array already given to xray_sld when there is one (one energy grid, several functions)
+            ev = arg if form == 'array' else np.array([E] + list(case['more']))
             nvec = xsf.index_of_refraction(obj, density=rho, energy=ev)
             ctx.evaluated(1, 'refraction_vector')
             n0 = complex(xsf.index_of_refraction(obj, density=rho, energy=E))
@@ -856,6 +1059,66 @@ def check_compound(ctx, case):
             # a python list is a "vector" for energy=; for wavelength= the library needs an array (observed only)
             _v, exc = _try(xsf.index_of_refraction, obj, density=rho, wavelength=[wl, wl])
             ctx.count('observed.refraction_wavelength_list.' + ('ok' if exc is None else type(exc).__name__))
+
+    _compound_grids(ctx, bud, case, comp, obj, name, rho)
+    if form != 'npfloat' and not bud.n:
+        _repeat_call(ctx, bud, vector_text, gv, xsf.xray_sld(obj, density=rho, energy=arg))
+
+
+# one energy array and one wavelength array per worker, handed to every compound (a user's grid looped over
+# many materials); expected values come from the tuples
+ENERGY_GRID = (0.0423, 0.2774, 0.9297, 1.4867, 5.4147, 8.0478, 17.4793, 29.2)
+
+
+def _shared_grids():
+    import numpy as np
+    if 'egrid' not in _state:
+        xr = _state['xr']
+        _state['egrid'] = np.array(ENERGY_GRID)
+        _state['wgrid'] = np.array([xr.wavelength(e) for e in ENERGY_GRID])
+    return _state['egrid'], _state['wgrid']
+
+
+def _compound_grids(ctx, bud, case, comp, obj, name, rho):
+    """xray_sld and index_of_refraction of this compound on the worker's shared energy / wavelength arrays
+    (the same ndarray objects for every compound and for both functions), against the reference."""
+    import numpy as np
+    xr, xsf = _state['xr'], _state['xsf']
+    egrid, wgrid = _shared_grids()
+    by_wavelength = len(case['more']) % 2 == 1
+    arr, kwname, ulps = (wgrid, 'wavelength', 64) if by_wavelength else (egrid, 'energy', 8)
+    ctx.count('reuse.compound_grid.' + kwname)
+    text = 'xray_sld(%s, density=%r, %s=<shared array, %r keV>)' % (name, rho, kwname, list(ENERGY_GRID))
+    gg = xsf.xray_sld(obj, density=rho, **{kwname: arr})
+    if np.shape(gg[0]) != (len(ENERGY_GRID),) or np.shape(gg[1]) != (len(ENERGY_GRID),):
+        bud.violation('%s returned shapes %r, %r' % (text, np.shape(gg[0]), np.shape(gg[1])), kind='shape')
+        return
+    refs = [xr.sld(comp, rho, e, ulps=ulps) for e in ENERGY_GRID]
+    for i, (e, r) in enumerate(zip(ENERGY_GRID, refs)):
+        _cmp_sld(ctx, bud, (float(gg[0][i]), float(gg[1][i])), r, '%s[%d] at %r keV' % (text, i, e), what='sld_grid')
+        if bud.spent:
+            return
+    nvec = np.asarray(xsf.index_of_refraction(obj, density=rho, **{kwname: arr}))
+    if nvec.shape != (len(ENERGY_GRID),):
+        bud.violation('index_of_refraction(%s, %s=<shared array>) returned shape %r' % (name, kwname, nvec.shape),
+                      kind='shape')
+        return
+    for i, (e, r) in enumerate(zip(ENERGY_GRID, refs)):
+        if not (r.inside and not r.excluded and r.rho_defined):
+            continue
+        wl = xr.wavelength(e)
+        delta, beta = xr.refraction(r.rho, r.irho, wl)
+        f = wl ** 2 / (2 * math.pi) * 1e-6
+        nv = complex(nvec[i])
+        ctx.evaluated(2, 'refraction_grid')
+        if not (abs(-nv.imag - beta) <= f * r.tol_irho + 1e-12 * abs(beta) + 2e-16 and
+                abs((1 - nv.real) - delta) <= f * r.tol_rho + 1e-12 * abs(delta) + 4e-16 * max(1.0, abs(delta))):
+            bud.violation('index_of_refraction(%s, density=%r, %s=<shared array>)[%d] at %r keV = %r, '
+                          '1 - lambda^2/(2 pi)(rho + i irho)1e-6 = %r'
+                          % (name, rho, kwname, i, e, nv, complex(1 - delta, -beta)), kind='refraction')
+            return
+    if not bud.n:
+        _repeat_call(ctx, bud, text, gg, xsf.xray_sld(obj, density=rho, **{kwname: arr}))
 
 
 def check_mirror(ctx, case):
@@ -910,6 +1173,13 @@ def check_mirror(ctx, case):
         if r1.size != 1 or not _pair_close(float(r1.ravel()[0]), float(R[0, j]), 1e-15, rel=1e-10):
             bud.violation('mirror_reflectivity(%s) scalar call %r, grid entry %r' % (name, r1, R[0, j]),
                           kind='scalar-vs-vector')
+    # the same angle and energy / wavelength arrays once more (they went through index_of_refraction meanwhile)
+    if not bud.n:
+        if len({k[0] for k in comp}) < len(comp):
+            ctx.count('mirror.repeated_element')
+        _repeat_call(ctx, bud, 'mirror_reflectivity(%s, density=%r, angle=<array %r>, %s=<array %r>, roughness=%r)'
+                     % (name, rho, case['angles'], case['by'], kw[case['by']].tolist(), sigma), R,
+                     xsf.mirror_reflectivity(obj, density=rho, angle=ang, roughness=sigma, **kw))
 
 
 # --------------------------------------------------------------------------
@@ -919,12 +1189,24 @@ F0_QS = [0.0, 1e-6, 0.1, 1.0, 7.5, 20.0, 60.0, TWENTYFOUR_PI * (1 - 1e-12)]
 F0_BEYOND = [TWENTYFOUR_PI * (1 + 1e-12), 76.0, 100.0, 1e3, 1e9]
 
 
+def _qgrid():
+    """ONE float64 Q array per worker, handed to every f0 route of every entry, atom and ion (a user's
+    Q grid looped over the table).  The expected values come from the immutable list, never from it."""
+    import numpy as np
+    if 'Qgrid' not in _state:
+        _state['Qgrid'] = np.array(F0_QS + F0_BEYOND)
+        _state['Qgrid2'] = np.array([[0.0, 1.0], [2.0, 100.0]])
+    return _state['Qgrid'], _state['Qgrid2']
+
+
 def _f0_compare(ctx, bud, text, fn, entry, electrons=None):
     """fn(Q) is a library route to f0 for the coefficient entry `entry`."""
     import numpy as np
     cm = _state['cm']
     qs = F0_QS + F0_BEYOND
-    vec = np.asarray(fn(np.array(qs)))
+    qarr, qarr2 = _qgrid()
+    ctx.count('reuse.f0_q_grid_calls')
+    vec = np.asarray(fn(qarr))
     if vec.shape != (len(qs),):
         bud.violation('%s: %d Q values returned shape %r' % (text, len(qs), vec.shape), kind='f0.shape')
         return
@@ -952,10 +1234,14 @@ def _f0_compare(ctx, bud, text, fn, entry, electrons=None):
                               % (text, Q, float(g), electrons), kind='f0.electron-count', got=float(g), want=electrons)
             else:
                 ctx.observe('f0.electron_count.abserr', abs(float(g) - electrons))
-    g2 = np.asarray(fn(np.array([[0.0, 1.0], [2.0, 100.0]])))
+    g2 = np.asarray(fn(qarr2))
     ctx.evaluated(1, 'f0.shape')
     if g2.shape != (2, 2) or not _isnan(float(g2[1, 1])) or _isnan(float(g2[1, 0])):
-        bud.violation('%s: 2x2 Q array returned %r' % (text, g2), kind='f0.shape')
+        bud.violation('%s: 2x2 Q array [[0, 1], [2, 100]] returned %r' % (text, g2), kind='f0.shape')
+    elif not abs(float(g2[0, 1]) - cm.f0(entry, 1.0)) <= 1e-10 * abs(cm.f0(entry, 1.0)) + 1e-12:
+        bud.violation('%s: 2x2 Q array [[0, 1], [2, 100]]: f0(Q=1) = %r, the coefficients of %s give %r'
+                      % (text, float(g2[0, 1]), entry, cm.f0(entry, 1.0)), kind='f0.value', Q=1.0)
+    _repeat_call(ctx, bud, text + ' with the Q grid %r' % (qs,), vec, fn(qarr))
 
 
 def check_f0_entry(ctx, case):
@@ -1008,7 +1294,7 @@ def check_f0_atoms(ctx, case):
         atom = _atom(key)
         entry = cm.entry_for(el.symbol, key[2]) if Z > 0 else None
         ctx.distinct_case(('f0_atom', key))
-        got, exc = _try(atom.xray.f0, np.array([0.0, 1.0, 7.5]))
+        got, exc = _try(atom.xray.f0, _qgrid()[0])
         if entry is None:
             ctx.evaluated(1, 'f0.no_entry_rejected')
             ctx.count('f0.atoms_without_entry')
